@@ -1,10 +1,12 @@
-"""Query-core (in-model) part of C01: the SELECT / query skeleton.
+"""Query-core (in-model) part of C01: queries around the expression model.
 
-coq/theories/QueryCore.v models Parser::parse_query / parse_query_body / parse_select / parse_select_item /
-parse_table_factor / parse_optional_alias / the LIMIT-OFFSET loop and the Display impls of Query / SetExpr /
-Select / SelectItem / TableFactor / OrderByExpr at token level; coq/theories/QueryCoreProofs.v proves the
-round trip `parse_query d fuel (qtoks q ++ rest) = Ok (q, rest)` for well-formed trees.  This module ties the
-model to the implementation on every run:
+coq/theories/QueryCore.v models Parser::parse_query (WITH / parse_cte, ORDER BY, the LIMIT-OFFSET loop) / parse_query_body
+(SELECT, parenthesised query, VALUES, TABLE) / parse_select / parse_select_item / parse_table_and_joins (all join kinds and
+constraints) / parse_table_factor (tables, derived tables, nested joins) / parse_optional_alias, subqueries inside
+expressions ((q), IN (q), [NOT] EXISTS (q), op ANY|ALL|SOME (q)) and the Display impls of Query / With / Cte / SetExpr /
+Select / SelectItem / TableWithJoins / Join / TableFactor / Values / Table / OrderByExpr at token level;
+coq/theories/QueryCoreProofs.v proves the round trip `parse_query d fuel (qtoks q ++ rest) = Ok (q, rest)` for
+well-formed trees.  This module ties the model to the implementation on every run:
   gen_query_tables()   coq/gen/QueryTables.v: the reserved-word lists and the per-dialect switches of the model,
                        dumped / probed from the running crate (harness/prattx qtables);
   check_query(run, p)  generates texts of the fragment in all dialects, runs the real tokenizer + parse_query +
@@ -28,16 +30,17 @@ QKW = {"SELECT": "KSelect", "WHERE": "KWhere", "GROUP": "KGroup", "BY": "KBy", "
        "ASC": "KAsc", "DESC": "KDesc", "LIMIT": "KLimit", "OFFSET": "KOffset", "AS": "KAs", "UNION": "KUnion",
        "EXCEPT": "KExcept", "INTERSECT": "KIntersect", "JOIN": "KJoin", "INNER": "KInner", "LEFT": "KLeft",
        "RIGHT": "KRight", "FULL": "KFull", "OUTER": "KOuter", "CROSS": "KCross", "NATURAL": "KNatural", "ON": "KOn",
-       "USING": "KUsing", "WITH": "KWith", "RECURSIVE": "KRecursive"}
+       "USING": "KUsing", "WITH": "KWith", "RECURSIVE": "KRecursive", "EXISTS": "KExists",
+       "VALUES": "KValues", "TABLE": "KTable"}
 WORD_OPS = {"AND": 40, "OR": 41, "XOR": 42}
 FLAGS = ["limit_comma", "limit_by", "trailing", "proj_trailing", "wild_except", "wild_ilike", "select_as", "unnest_table",
-         "hyphen_table", "group_by_expr", "paren_tables", "group_with"]
+         "hyphen_table", "group_by_expr", "paren_tables", "group_with", "exists_fn", "values_empty"]
 # words used as aliases / table names: reserved and non-reserved keywords of the model's alphabet
 ALIAS_WORDS = ["SELECT", "WHERE", "GROUP", "BY", "HAVING", "ORDER", "ASC", "DESC", "LIMIT", "OFFSET", "AS", "UNION",
                "EXCEPT", "INTERSECT", "FROM", "DISTINCT", "ALL", "NOT", "IS", "NULL", "TRUE", "IN", "BETWEEN", "LIKE",
                "ILIKE", "TO", "ESCAPE", "AT", "TIME", "ZONE", "ANY", "SOME", "UNNEST", "DIV", "AND", "OR", "INT", "TEXT",
                "DATE", "x7", "JOIN", "INNER", "LEFT", "RIGHT", "FULL", "OUTER", "CROSS", "NATURAL", "ON", "USING", "WITH",
-               "RECURSIVE"]
+               "RECURSIVE", "EXISTS", "VALUES", "TABLE"]
 
 
 def word_term(name):
@@ -70,6 +73,8 @@ def flags_from(entry):
         "group_by_expr": ok("group_by_expr"),
         "paren_tables": ok("paren_tables"),
         "group_with": ok("group_with"),
+        "exists_fn": p["exists_nested"].get("item0_kind") != "Exists",
+        "values_empty": ok("values_empty"),
     }
 
 
@@ -131,6 +136,7 @@ def expr_pool(run, T):
 class Gen:
     def __init__(self, rng, pool):
         self.rng, self.pool, self.n = rng, pool, 0
+        self.sq_depth = 0        # how deep subqueries inside expressions may still nest
 
     def name(self):
         self.n += 1
@@ -139,8 +145,17 @@ class Gen:
     def word(self, p=0.12):
         return self.rng.choice(ALIAS_WORDS) if self.rng.random() < p else self.name()
 
+    def subq(self):
+        return self.query(self.sq_depth - 1)
+
     def expr(self):
         r = self.rng.random()
+        if self.sq_depth > 0 and r < 0.14:
+            f = self.rng.choice(["(%s)", "(%s)", "EXISTS (%s)", "NOT EXISTS (%s)", "x1 IN (%s)", "x2 NOT IN (%s)", "x3 = (%s)",
+                                 "(%s) + x4", "x5 = ANY (%s)", "x6 < ALL (%s)", "((%s))", "x7 IN ((%s))", "x8 IN ((%s), 1)",
+                                 "NOT (%s)", "x9 BETWEEN (%s) AND 2", "x1 AND EXISTS (%s) OR x2", "- (%s)", "(%s) IS NULL",
+                                 "x3 LIKE (%s)", "(%s) :: INT", "((%s), x4)", "x5 = SOME ((%s) + 1)"])
+            return f % self.subq()
         if r < 0.35:
             return self.name()
         if r < 0.5:
@@ -220,8 +235,13 @@ class Gen:
         return s
 
     def operand(self, depth):
-        if depth > 0 and self.rng.random() < 0.3:
+        r = self.rng.random()
+        if depth > 0 and r < 0.3:
             return "(" + self.query(depth - 1) + ")"
+        if r < 0.36:
+            return "VALUES " + self.lst(lambda: "(" + self.lst(self.expr) + ")")
+        if r < 0.4:
+            return "TABLE " + self.word(0.1)
         return self.select(depth)
 
     def body(self, depth):
@@ -249,6 +269,13 @@ class Gen:
         return s
 
     def query(self, depth):
+        saved, self.sq_depth = self.sq_depth, depth
+        try:
+            return self.query1(depth)
+        finally:
+            self.sq_depth = saved
+
+    def query1(self, depth):
         s = ""
         if depth > 0 and self.rng.random() < 0.25:
             s = "WITH " + ("RECURSIVE " if self.rng.random() < 0.3 else "")
@@ -288,9 +315,11 @@ def query_cases(run, T):
         # combination still runs in four or five dialects); thorough: all of them everywhere
         part = (lambda i: True) if thorough else (lambda i: (i + di) % 3 == 0)
         # (i) every shape of clause presence / absence
+        g.sq_depth = 1
         for m in range(128):
             pres = {k: bool(m >> i & 1) for i, k in enumerate(sel_keys + tail_keys)}
             add(d, g.select(1, pres) + g.tail(pres), "shapes")
+        g.sq_depth = 0
         # (ii) the alias rule: every word as column alias / table alias / table name, with and without AS
         for w in ALIAS_WORDS:
             add(d, "SELECT x1 %s FROM x2" % w, "alias")
@@ -349,6 +378,40 @@ def query_cases(run, T):
                   "WITH 's1' AS (SELECT x2) SELECT x3", "WITH x1 ('s1') AS (SELECT x2) SELECT x3", "WITH 1 AS (SELECT x2) SELECT x3", "WITH x1 AS (SELECT x2) x3", "WITH",
                   "SELECT x1 FROM x2 JOIN x3 USING ('s1')", "SELECT x1 FROM x2 JOIN x3 USING (1)", "SELECT x1 LIMIT ALL BY x2", "SELECT x1 BY x2", "SELECT x1 OFFSET 1 BY x2",
                   "SELECT x1 LIMIT 1 OFFSET 2 BY x3", "SELECT x1 LIMIT 1, 2 BY x3"]:
+            add(d, s, "directed")
+        # (ii-d) subqueries inside expressions
+        SQS = ["SELECT x2", "SELECT x2 FROM x3 WHERE x4", "WITH x2 AS (SELECT x3) SELECT x4", "SELECT x2 UNION SELECT x3 ORDER BY x4 LIMIT 1",
+               "(SELECT x2)", "SELECT (SELECT x2)", "SELECT x2, x3", "SELECT EXISTS (SELECT x2) FROM x3 JOIN x4 ON x5 IN (SELECT x6)", "x2", "SELECT", "SELECT x2 x3 x4"]
+        EXF = ["SELECT (%s)", "SELECT ((%s))", "SELECT (%s), (%s) AS x8 FROM x9", "SELECT x1 WHERE EXISTS (%s)", "SELECT x1 WHERE NOT EXISTS (%s)",
+               "SELECT x1 WHERE NOT NOT EXISTS (%s)", "SELECT x1 WHERE x5 IN (%s)", "SELECT x1 WHERE x5 NOT IN (%s)", "SELECT x1 WHERE x5 IN ((%s))",
+               "SELECT x1 WHERE x5 IN ((%s), (%s))", "SELECT x1 WHERE x5 = ANY (%s)", "SELECT x1 WHERE x5 = ANY ((%s))", "SELECT x1 WHERE x5 > ALL ((%s) + 1)",
+               "SELECT x1 WHERE x5 = SOME (%s)", "SELECT x1 WHERE x5 IN UNNEST (%s)", "SELECT x1 WHERE x5 IN UNNEST ((%s))", "SELECT x1 HAVING (%s) > 1",
+               "SELECT x1 GROUP BY (%s), x5", "SELECT x1 ORDER BY (%s) DESC, EXISTS (%s)", "SELECT x1 LIMIT (%s) OFFSET (%s)", "SELECT x1 LIMIT (%s), (%s)",
+               "SELECT x1 FROM x5 JOIN x6 ON EXISTS (%s)", "SELECT x1 FROM x5 JOIN x6 ON (%s) = x7 LEFT JOIN x8 USING (x9)", "SELECT x1 x5 (%s)", "SELECT x1 EXISTS (%s)",
+               "SELECT x1 NOT EXISTS (%s)", "SELECT EXISTS (%s) AS x5, NOT EXISTS (%s) x6", "SELECT x5 (%s)", "SELECT EXISTS %s", "SELECT EXISTS ((%s))",
+               "SELECT (%s) (%s)", "SELECT (%s, x5)", "SELECT (x5, (%s))", "SELECT x1 WHERE (%s) IS NOT DISTINCT FROM (%s) FROM x5", "SELECT - (%s) :: INT",
+               "SELECT x1 WHERE x5 LIKE (%s) ESCAPE 's1'", "SELECT x1 WHERE x5 BETWEEN (%s) AND (%s)", "SELECT x1 IN (%s) IN (%s)", "SELECT x1 FROM (%s) AS x5 WHERE (%s)",
+               "SELECT (%s) UNION SELECT (%s)", "SELECT (%s", "SELECT (%s))", "SELECT x1 WHERE x5 IN (%s", "SELECT x1 WHERE EXISTS (%s) (%s)", "SELECT [(%s)]",
+               "SELECT x1[(%s)]", "SELECT EXISTS", "SELECT EXISTS (", "SELECT NOT EXISTS", "SELECT x1 AS EXISTS", "SELECT x1 FROM EXISTS", "SELECT x1 FROM x2 EXISTS"]
+        for ei, f in enumerate(EXF):
+            for si, s in enumerate(SQS):
+                if f.count("%s") == 0:
+                    if si == 0:
+                        add(d, f, "subquery")
+                elif part(ei + si) or si < 2:
+                    add(d, f % ((s,) * f.count("%s")), "subquery")
+        # (ii-e) VALUES and TABLE bodies
+        for s in ["VALUES (1)", "VALUES (1, x2), (x3, 's1')", "VALUES (1), (2), (3) ORDER BY x1 LIMIT 2", "VALUES ()", "VALUES (), ()", "VALUES (1), ()",
+                  "VALUES", "VALUES 1", "VALUES (1", "VALUES (1),", "VALUES (1,)", "VALUES (1), WHERE", "VALUES (1) (2)", "VALUES ((1))", "VALUES (1) UNION VALUES (2)",
+                  "VALUES (1) UNION ALL SELECT x2 EXCEPT TABLE x3", "SELECT x1 FROM (VALUES (1), (2)) AS x3", "SELECT x1 FROM (VALUES (1)) x3 JOIN (VALUES (2)) AS x4 ON x5",
+                  "SELECT x1 FROM VALUES (1) AS x3", "SELECT x1 FROM VALUES", "SELECT x1 FROM VALUES x3", "SELECT x1 FROM VALUES JOIN x3", "SELECT x1 FROM (VALUES JOIN x3)",
+                  "WITH x1 AS (VALUES (1)) SELECT x2", "WITH x1 (x2) AS (VALUES (1)) TABLE x1", "WITH x1 AS (TABLE x2) VALUES (1)", "SELECT (VALUES (1))", "SELECT EXISTS (VALUES (1))",
+                  "SELECT x1 IN (VALUES (1))", "VALUES ((SELECT x1)), (EXISTS (SELECT x2))", "VALUES (x1 IN (SELECT x2))", "(VALUES (1))", "((VALUES (1)) UNION (TABLE x1))",
+                  "VALUES (1) AS x2", "VALUES (1) x2", "VALUES (x1) FROM x2", "VALUES ROW(1)", "VALUES (1) LIMIT 1 OFFSET 2",
+                  "TABLE x1", "TABLE x1 ORDER BY x2", "TABLE", "TABLE 1", "TABLE (x1)", "TABLE x1 x2", "TABLE x1 AS x2", "TABLE x1.x2", "TABLE x1 UNION TABLE x2",
+                  "TABLE SELECT", "TABLE TABLE", "TABLE VALUES", "TABLE x1, x2", "SELECT x1 FROM TABLE", "SELECT x1 FROM TABLE x2", "SELECT x1 FROM TABLE (x2)",
+                  "SELECT x1 FROM x2 JOIN TABLE", "SELECT x1 FROM (TABLE x2)", "SELECT x1 FROM (TABLE x2) AS x3", "SELECT x1 FROM (TABLE JOIN x3)", "SELECT x1 AS TABLE", "SELECT x1 TABLE",
+                  "SELECT x1 VALUES", "SELECT x1 FROM x2 VALUES", "SELECT x1 FROM x2 AS VALUES", "SELECT TABLE", "SELECT VALUES", "SELECT x1 = (TABLE x2)"]:
             add(d, s, "directed")
         # (iii) directed: LIMIT / OFFSET orders, quantifiers, parenthesised operands, trailing commas, wildcard options
         for s in ["SELECT x1 LIMIT 1 OFFSET 2", "SELECT x1 OFFSET 2 LIMIT 1", "SELECT x1 LIMIT ALL", "SELECT x1 LIMIT ALL LIMIT 2",
@@ -449,18 +512,77 @@ class QEnc(C04.Enc):
             out.append(f(x))
         return "[" + "; ".join(out) + "]"
 
+    SQ, EX, NEX = 1000000, 2000000, 3000000
+    subs = None
+
+    def sub(self, qn):
+        """A subquery at the current token position: its index among the subqueries of the enclosing expression."""
+        if not isinstance(qn, dict):
+            raise ValueError("subquery outside the fragment")
+        saved, self.subs = self.subs, None
+        q = self.q_query(qn)
+        self.subs = saved
+        if self.subs is None:
+            raise ValueError("subquery outside an expression site")
+        self.subs.append(q)
+        return len(self.subs) - 1
+
+    def conv(self, n):
+        k = n["k"]
+        if k == "subquery":
+            self.eat("p", "LParen"); i = self.sub(n["q"]); self.eat("p", "RParen")
+            return "(ENested (EAtom false %d))" % (self.SQ + i)
+        if k == "exists":
+            if n["neg"]:
+                self.eat("kw", "NOT")
+            self.eatq("EXISTS"); self.eat("p", "LParen"); i = self.sub(n["q"]); self.eat("p", "RParen")
+            return "(EAtom false %d)" % ((self.NEX if n["neg"] else self.EX) + i)
+        if k == "insubquery":
+            e = self.conv(n["e"])
+            if n["neg"]:
+                self.eat("kw", "NOT")
+            self.eat("kw", "IN"); self.eat("p", "LParen"); i = self.sub(n["q"]); self.eat("p", "RParen")
+            return "(EInList %s %s [EAtom false %d])" % (coq_bool(n["neg"]), e, self.SQ + i)
+        if k == "anyall" and n["r"]["k"] == "subquery":
+            # Display writes ANY(<subquery>) with one pair of parentheses; so does the parser read it
+            l = self.conv(n["l"])
+            t = self.peek()
+            name = ("kw:" + t[1]) if t[0] == "kw" else t[1]
+            if t[0] not in ("kw", "op") or self.binop.get(name) != n["op"]:
+                raise ValueError("alignment: operator %s vs token %s" % (n["op"], t))
+            self.pos += 1
+            q = self.eat("kw")[1]
+            if q != n["q"]:
+                raise ValueError("quantifier")
+            self.eat("p", "LParen")
+            if self.peek() == ["p", "LParen"]:
+                raise ValueError("ANY ((subquery)): two token forms of one tree")
+            i = self.sub(n["r"]["q"])
+            self.eat("p", "RParen")
+            return "(EAnyAll %d %s %s (EAtom false %d))" % (self.kid[name], C04.KW[q], l, self.SQ + i)
+        return super().conv(n)
+
+    def xconv(self, n):
+        """An expression site: the expression and the list of its subqueries."""
+        saved, self.subs = self.subs, []
+        try:
+            e = self.conv(n)
+            return "(X %s [%s])" % (e, "; ".join(self.subs))
+        finally:
+            self.subs = saved
+
     def opt(self, n, kw=None):
         if n is None:
             return "None"
         if kw:
             self.eatq(kw)
-        return "(Some %s)" % self.conv(n)
+        return "(Some %s)" % self.xconv(n)
 
     def q_item(self, n):
         if n["k"] == "wild":
             self.eat("op", "Mul")
             return "IWild"
-        e = self.conv(n["e"])
+        e = self.xconv(n["e"])
         if n["k"] == "expr":
             return "(IExpr %s)" % e
         if self.peek() == ["other", "AS"]:
@@ -506,7 +628,7 @@ class QEnc(C04.Enc):
         rel = self.q_factor(j["rel"])
         if c["k"] == "on":
             self.eatq("ON")
-            cc = "(JOn %s)" % self.conv(c["e"])
+            cc = "(JOn %s)" % self.xconv(c["e"])
         elif c["k"] == "using":
             self.eatq("USING")
             cc = "(JUsing %s)" % self.cols(c["cols"])
@@ -539,11 +661,11 @@ class QEnc(C04.Enc):
         return "(Some (With %s %s))" % (coq_bool(w["recursive"]), ctes)
 
     def q_order(self, o):
-        e = self.conv(o["e"])
+        e = self.xconv(o["e"])
         if o["asc"] is None:
-            return "(%s, None)" % e
+            return "(OElem %s None)" % e
         self.eatq("ASC" if o["asc"] else "DESC")
-        return "(%s, Some %s)" % (e, coq_bool(o["asc"]))
+        return "(OElem %s (Some %s))" % (e, coq_bool(o["asc"]))
 
     def q_body(self, n):
         k = n["k"]
@@ -552,6 +674,23 @@ class QEnc(C04.Enc):
             q = self.q_query(n["q"])
             self.eat("p", "RParen")
             return "(BNested %s)" % q
+        if k == "values":
+            self.eatq("VALUES")
+
+            def row(r):
+                self.eat("p", "LParen")
+                l = self.commas(r, self.xconv)
+                if self.peek() == ["p", "Comma"]:
+                    raise ValueError("trailing comma in an expression list")
+                self.eat("p", "RParen")
+                return "(VRow %s)" % l
+            rows = self.commas(n["rows"], row)
+            if self.peek() == ["p", "Comma"]:       # a trailing comma of the row list
+                self.pos += 1
+            return "(BValues %s)" % rows
+        if k == "table_body":
+            self.eatq("TABLE")
+            return "(BTable %s)" % self.word(n["name"])
         if k == "setop":
             l = self.q_body(n["l"])
             self.eatq(n["op"].upper())
@@ -576,7 +715,7 @@ class QEnc(C04.Enc):
         gb = "[]"
         if n["group_by"]:
             self.eatq("GROUP"); self.eatq("BY")
-            gb = self.commas(n["group_by"], self.conv)
+            gb = self.commas(n["group_by"], self.xconv)
         hv = self.opt(n["having"], "HAVING")
         return "(BSelect %s %s %s %s %s %s)" % (coq_bool(n["distinct"]), items, fr, wh, gb, hv)
 
